@@ -72,6 +72,9 @@ class Check:
         return self.ob(rule, instance, False, detail, loc, True, witness)
 
     def inconclusive(self, rule, instance, detail="", loc=""):
+        if "uninitialised value in term" in str(detail) or "uninitialised value reaches a result" in str(detail):
+            return self.ob(rule, instance, False, "the result is computed from a value that is not initialised at that point (e.g. a member "
+                                                  "read in the initialiser of a member declared before it)", loc, True)
         if "PIECEWISE:" in str(detail):
             # a unit conversion whose result depends on a condition on the value is not the affine map of the units
             return self.ob(rule, instance, False, str(detail).replace("PIECEWISE: ", ""), loc, True)
